@@ -74,7 +74,6 @@ rescale_instance!(c13_rescale_d32_s2_up2, 2, 2);
 rescale_instance!(c13_rescale_d32_s0_up8, 0, 8);
 rescale_instance!(c13_rescale_d32_s1_down1, 1, -1);
 rescale_instance!(c13_rescale_d32_s3_down2, 3, -2);
-rescale_instance!(c13_rescale_d32_s4_down4, 4, -4);
 
 //@ tier: quick
 //@ functions: arrow_cast::cast::decimal::rescale_decimal::<Decimal32Type, Decimal64Type>, <Decimal64Type, Decimal32Type>, DecimalCast::{from_decimal, to_i64}
@@ -113,3 +112,69 @@ fn c13_rescale_cross_width() {
     kani::cover!(got2.is_none() && w > 0);
     kani::cover!(got2.is_some() && w < -150);
 }
+
+// ---- array level: the safe (overflow -> null) and strict (overflow -> error) decimal casts on one row ----
+fn decimal_cast_one_row<const IS: i8, const D: i8>() {
+    use arrow_array::Array;
+    let v: i32 = kani::any();
+    let ip: u8 = kani::any();
+    let op: u8 = kani::any();
+    kani::assume(ip >= 1 && ip <= 9 && op >= 1 && op <= 9);
+    kani::assume(IS <= ip as i8 && IS + D >= 0 && IS + D <= op as i8);
+    kani::assume((v as i64).abs() < P10[ip as usize]);
+    let array = PrimitiveArray::<Decimal32Type>::new(vec![v].into(), None);
+    let e = exact::<D>(v as i64);
+    let fits = e.abs() < P10[op as usize];
+    let safe_opts = CastOptions { safe: true, ..Default::default() };
+    let strict_opts = CastOptions { safe: false, ..Default::default() };
+    let safe = if D >= 0 {
+        convert_to_bigger_or_equal_scale_decimal::<Decimal32Type, Decimal32Type>(&array, ip, IS, op, IS + D, &safe_opts)
+    } else {
+        convert_to_smaller_scale_decimal::<Decimal32Type, Decimal32Type>(&array, ip, IS, op, IS + D, &safe_opts)
+    };
+    match &safe {
+        Ok(out) => {
+            assert!(out.len() == 1);
+            if out.is_valid(0) {
+                assert!(fits && out.value(0) as i64 == e, "safe cast: a non-null result is the exact rescaled value and fits the target precision");
+            } else {
+                assert!(!fits, "safe cast: null only when the value does not fit");
+            }
+        }
+        Err(_) => assert!(false, "safe cast must not fail"),
+    }
+    let strict = if D >= 0 {
+        convert_to_bigger_or_equal_scale_decimal::<Decimal32Type, Decimal32Type>(&array, ip, IS, op, IS + D, &strict_opts)
+    } else {
+        convert_to_smaller_scale_decimal::<Decimal32Type, Decimal32Type>(&array, ip, IS, op, IS + D, &strict_opts)
+    };
+    match &strict {
+        Ok(out) => assert!(fits && out.is_valid(0) && out.value(0) as i64 == e, "strict cast: Ok only when the value fits, with the exact value"),
+        Err(_) => assert!(!fits, "strict cast errs exactly where the safe cast yields null"),
+    }
+    kani::cover!(!fits && op == 9, "overflow at the maximum precision of the type");
+    kani::cover!(fits && v < -1);
+    std::mem::forget(safe);
+    std::mem::forget(strict);
+    std::mem::forget(array);
+}
+
+macro_rules! decimal_cast_instance {
+    ($name:ident, $is:expr, $d:expr) => {
+        //@ tier: quick
+        //@ timeout: 900
+        //@ functions: arrow_cast::cast::decimal::{convert_to_bigger_or_equal_scale_decimal, convert_to_smaller_scale_decimal, apply_decimal_cast, make_upscaler, make_downscaler}, PrimitiveArray::{unary, unary_opt, try_unary}
+        //@ bound: ONE-row Decimal32 array, concrete (input scale, scale delta) per instance, symbolic precisions 1..=9 (the type's maximum included) on both sides, every value valid for the input precision; safe mode: null iff the exact rescaled value does not fit, else that value; strict mode errs exactly where safe mode yields null
+        //@ assume: the input value has at most `input_precision` digits
+        //@ stub: alloc::fmt::format -> empty String
+        #[kani::proof]
+        #[kani::unwind(4)]
+        #[kani::stub(alloc::fmt::format, stub_format)]
+        fn $name() {
+            decimal_cast_one_row::<{ $is }, { $d }>();
+        }
+    };
+}
+
+decimal_cast_instance!(c13_decimal_cast_row_s0_up1, 0, 1);
+decimal_cast_instance!(c13_decimal_cast_row_s2_down1, 2, -1);
